@@ -15,7 +15,7 @@ use super::ops::{KeyOps, KeyOpsSet};
 use crate::error::Error;
 
 /// A parsed JWK
-#[derive(Clone, Copy, Debug, PartialEq, Eq)]
+#[derive(Clone, Copy, PartialEq, Eq)]
 #[cfg_attr(feature = "arbitrary", derive(Arbitrary))]
 pub struct JwkParts<'a> {
     /// Key type
@@ -85,6 +85,30 @@ impl OptAttr<'_> {
         } else {
             Err(err_msg!(Invalid, "Empty attribute"))
         }
+    }
+}
+
+// The private key (`d`) and symmetric key (`k`) attributes are not printed
+impl Debug for JwkParts<'_> {
+    fn fmt(&self, f: &mut Formatter<'_>) -> fmt::Result {
+        fn redact(attr: &OptAttr<'_>) -> &'static str {
+            if attr.is_some() {
+                "<secret>"
+            } else {
+                "None"
+            }
+        }
+        f.debug_struct("JwkParts")
+            .field("kty", &self.kty)
+            .field("kid", &self.kid)
+            .field("alg", &self.alg)
+            .field("crv", &self.crv)
+            .field("x", &self.x)
+            .field("y", &self.y)
+            .field("d", &format_args!("{}", redact(&self.d)))
+            .field("k", &format_args!("{}", redact(&self.k)))
+            .field("key_ops", &self.key_ops)
+            .finish()
     }
 }
 
